@@ -17,6 +17,10 @@ pub fn subst(text: &str, root_text: &str) -> String {
     text.replace(R, root_text)
 }
 
+fn os(text: &str) -> std::ffi::OsString {
+    crate::scenario::to_os(text)
+}
+
 impl World {
     /// Builds the tree. Returns a harness error (never a violation) if the environment refuses.
     pub fn materialise(root: &Path, tree: &[Node]) -> Result<World, String> {
@@ -39,7 +43,7 @@ impl World {
                     fs::create_dir(&p).map_err(|e| format!("mkdir {:?}: {}", p, e))?;
                 },
                 Kind::Link { target } => {
-                    symlink(subst(target, &world.root_text), &p)
+                    symlink(os(&subst(target, &world.root_text)), &p)
                         .map_err(|e| format!("symlink {:?}: {}", p, e))?;
                 },
             }
@@ -61,7 +65,7 @@ impl World {
             self.root.clone()
         }
         else {
-            self.root.join(rel)
+            self.root.join(os(rel))
         }
     }
 
@@ -71,7 +75,7 @@ impl World {
         fn rec(dir: &Path, rel: &str, out: &mut Vec<(String, char)>) -> Result<(), String> {
             for ent in fs::read_dir(dir).map_err(|e| format!("verify read_dir {:?}: {}", dir, e))? {
                 let ent = ent.map_err(|e| e.to_string())?;
-                let name = ent.file_name().to_str().ok_or("non-UTF-8 name")?.to_string();
+                let name = crate::scenario::from_os(&ent.file_name());
                 let r = crate::scenario::join(rel, &name);
                 let ft = ent.file_type().map_err(|e| e.to_string())?;
                 if ft.is_symlink() {
@@ -141,7 +145,7 @@ impl World {
             },
             MutOp::Retarget(target) => {
                 nuke(&p);
-                symlink(subst(target, &self.root_text), &p)
+                symlink(os(&subst(target, &self.root_text)), &p)
             },
         })();
         match res {
